@@ -44,17 +44,19 @@ def version_history(mdib_file, n_steps, seeds, kinds=None):
     for seed in seeds:
         with Loop(mdib_file, with_consumer_mdib=False, n_consumers=0) as lp:
             mdib = lp.pmdib
-            results = []
-            properties.strongbind(mdib, transaction=results.append)
+            results_live = []
+            results = results_live
+            properties.strongbind(mdib, transaction=results_live.append)
             high_d, high_s, high_c = {}, {}, {}     # highest version ever seen per handle (also of deleted ones)
             d0, s0, c0 = _versions(mdib)
             for tbl, hi in ((d0, high_d), (s0, high_s), (c0, high_c)):
                 hi.update(tbl)
             h = History(lp, seed)
             for i in range(n_steps):
-                del results[:]
-                v0 = mdib.mdib_version
-                before = _versions(mdib)
+                with mdib.mdib_lock:      # background commits of the role provider (alert system self check) must not fall between these reads
+                    del results_live[:]
+                    v0 = mdib.mdib_version
+                    before = _versions(mdib)
                 try:
                     kind, detail = h.step(kinds[i % len(kinds)] if kinds else None)
                 except Exception as ex:  # noqa: BLE001
@@ -62,9 +64,12 @@ def version_history(mdib_file, n_steps, seeds, kinds=None):
                     break
                 cases += 1
                 label = f'{mdib_file} seed {seed} step {i} {kind} {detail}'
-                if mdib.mdib_version != v0 + len(results):
-                    bad.append({'key': f'mdib-version-step:{kind}', 'detail': f'{label}: MdibVersion {v0} -> {mdib.mdib_version} for {len(results)} commit(s)'})
-                after = _versions(mdib)
+                with mdib.mdib_lock:
+                    v1, n_res, after = mdib.mdib_version, len(results_live), _versions(mdib)
+                    results = list(results_live)
+                    ref_problems = referential(mdib)[:2]
+                if v1 != v0 + n_res:
+                    bad.append({'key': f'mdib-version-step:{kind}', 'detail': f'{label}: MdibVersion {v0} -> {v1} for {n_res} commit(s)'})
                 changed_s = {s.DescriptorHandle for tr in results for s in tr.all_states() if not s.is_context_state}
                 changed_c = {s.Handle for tr in results for s in tr.all_states() if s.is_context_state}
                 changed_d = {d_.Handle for tr in results for d_ in list(tr.descr_updated) + list(tr.descr_created)}
@@ -82,14 +87,14 @@ def version_history(mdib_file, n_steps, seeds, kinds=None):
                         if v < hi.get(k, v):
                             bad.append({'key': f'version-decreased:{name}', 'detail': f'{label}: {name} {k} version {v} < earlier {hi[k]}'})
                         hi[k] = max(hi.get(k, v), v)
-                for r in referential(mdib)[:2]:
+                for r in ref_problems:
                     bad.append({'key': f'referential:{kind}', 'detail': f'{label}: {r}'})
                 # reported copies carry the committed versions
                 for tr in results:
                     for s in tr.all_states():
                         cur = (mdib.context_states.handle.get_one(s.Handle, allow_none=True) if s.is_context_state
                                else mdib.states.descriptor_handle.get_one(s.DescriptorHandle, allow_none=True))
-                        if cur is not None and tr is results[-1] and s.StateVersion != cur.StateVersion:
+                        if cur is not None and tr is results[-1] and mdib.mdib_version == v1 and s.StateVersion != cur.StateVersion:
                             bad.append({'key': f'reported-version-differs:{kind}', 'detail': f'{label}: reported StateVersion {s.StateVersion}, MDIB has {cur.StateVersion}'})
                 if len(bad) > 5:
                     return cases, bad
